@@ -2,6 +2,7 @@ package sim
 
 import (
 	"fmt"
+	"path/filepath"
 	"sort"
 	"strings"
 	"testing"
@@ -27,7 +28,9 @@ type c08Meta struct {
 	Steps    []c08Step `json:"steps"`
 	Rows     int       `json:"rows"`
 	Injected bool      `json:"injected"`
-	Final    []string  `json:"final"` // file tables that must exist after the final COMMIT
+	Final    []string  `json:"final"`           // file tables that must exist after the final COMMIT
+	Files    []string  `json:"files,omitempty"` // file names of t0 and t1 (the extension is the format)
+	Fixed    bool      `json:"fixed,omitempty"` // a fixed-length table takes part (--import-format FIXED)
 }
 
 type c08gen struct {
@@ -227,7 +230,28 @@ func genC08(seed uint64) (*Scenario, *c08Meta) {
 	}
 	m := &c08Meta{Rows: g.rows}
 	sc := &Scenario{Prop: "C08"}
-	sc.Files = []FileSpec{{Name: "t0.csv", Content: c01Table(g.rows, 0)}, {Name: "t1.csv", Content: c01Table(g.rows, 2)}, {Name: "bystander.csv", Content: "a,b\n1,2\n"}}
+	// 40 % of the sessions keep one or both tables in another format than CSV
+	// (the attributes of the file, e.g. the delimiter positions of a fixed-length
+	// table, are state that a failing statement must leave alone as well)
+	fr := Sub(seed, "c08-formats")
+	f0, f1 := "csv", "csv"
+	if fr.Bool(0.4) {
+		f0 = fr.PickS("tsv", "ltsv", "json", "jsonl", "fixed", "fixed")
+		if fr.Bool(0.4) {
+			f1 = fr.PickS("tsv", "ltsv", "json", "jsonl", "fixed")
+		}
+	}
+	anchor := func(f, text string) string {
+		if f == "ltsv" || f == "json" || f == "jsonl" {
+			return text + "50,1,owl\n51,2,pig\n" // formats without a header line lose their columns with their last row
+		}
+		return text
+	}
+	e0, c0 := benignTableAs(anchor(f0, c01Table(g.rows, 0)), f0)
+	e1, c1 := benignTableAs(anchor(f1, c01Table(g.rows, 2)), f1)
+	m.Files = []string{"t0" + e0, "t1" + e1}
+	m.Fixed = f0 == "fixed" || f1 == "fixed"
+	sc.Files = []FileSpec{{Name: "t0" + e0, Content: c0}, {Name: "t1" + e1, Content: c1}, {Name: "bystander.csv", Content: "a,b\n1,2\n"}}
 	if r.Bool(0.6) {
 		g.steps = append(g.steps, c08Step{Kind: "stmt", Src: "DECLARE tv VIEW (id, n);"}, c08Step{Kind: "stmt", Src: "INSERT INTO tv VALUES (1, 10), (2, 20), (3, 30);"})
 		g.tables = append(g.tables, "tv")
@@ -262,6 +286,9 @@ func genC08(seed uint64) (*Scenario, *c08Meta) {
 	sort.Strings(m.Final)
 	cpu := r.Pick(1, 1, 2, 4)
 	sc.Procs = []ProcSpec{{CPU: cpu, WaitTimeoutS: 10.0000001, RetryDelayNs: 10001009, Quiet: true, Format: "CSV", Shell: true}}
+	if m.Fixed {
+		sc.Procs[0].Flags = map[string]string{"IMPORT_FORMAT": "FIXED"}
+	}
 	renderC08(sc, m)
 	if big {
 		sc.Knobs = Knobs{RowStride: 16, Pool: "lifo", MinPerCore: r.Pick(0, 20)}
@@ -459,6 +486,11 @@ func (c08) Eval(t *testing.T, c *Case, dec func(int) *Decider) *Outcome {
 	// the final COMMIT writes exactly the last dump
 	commitIdx := len(meta.Steps) - 1
 	if e, msg := isErr(commitIdx); e {
+		if meta.Fixed && strings.Contains(msg, "value is too long") {
+			// a value outgrew its column of a fixed-length table: COMMIT refuses with a documented error
+			o.Stats.probe("fixed-length-commit-refused")
+			return o
+		}
 		if !strings.Contains(msg, "canceled") {
 			o.viol(prop, "commit", "commit-failed:"+errClass(msg), "the final COMMIT failed: "+msg)
 		}
@@ -470,17 +502,40 @@ func (c08) Eval(t *testing.T, c *Case, dec func(int) *Decider) *Outcome {
 			fsc.Files = append(fsc.Files, FileSpec{Name: name, Content: f.Data})
 		}
 		var st []string
+		// (what csvq writes as fixed-length text does not always read back as the same
+		// table - that is the round-trip property C02 -, so tables in that format are
+		// compared byte-wise with the session without the failed statements only)
+		isFixed := func(tb string) bool {
+			if !meta.Fixed {
+				return false
+			}
+			if _, ok := res.Final[tb]; ok {
+				return true // a file without an extension (created by the session): written in the import format
+			}
+			for _, f := range meta.Files {
+				if strings.TrimSuffix(f, filepath.Ext(f)) == tb {
+					return filepath.Ext(f) == ".txt"
+				}
+			}
+			return true
+		}
+		var freshTabs []string
 		for _, tb := range meta.Final {
+			if !isFixed(tb) {
+				freshTabs = append(freshTabs, tb)
+			}
+		}
+		for _, tb := range freshTabs {
 			st = append(st, fmt.Sprintf("ECHO '@T %s';", tb), fmt.Sprintf("SELECT * FROM %s;", tb))
 		}
-		fsc.Procs = []ProcSpec{{Program: strings.Join(st, "\n"), CPU: 1, WaitTimeoutS: 1, RetryDelayNs: 10001009, Quiet: true, Format: "CSV"}}
+		fsc.Procs = []ProcSpec{{Program: strings.Join(st, "\n"), CPU: 1, WaitTimeoutS: 1, RetryDelayNs: 10001009, Quiet: true, Format: "CSV", Flags: sc.Procs[0].Flags}}
 		fres, _ := Execute(t, fsc, dec(1))
 		o.Runs++
 		if fres.Procs[0].ExitCode != 0 {
 			o.viol(prop, "commit", "unreadable-after-commit", "a fresh process cannot read the committed tables: "+fres.Procs[0].ErrText)
 		} else {
 			fd := parseTableDump(fres.Procs[0].Stdout)
-			for _, tb := range meta.Final {
+			for _, tb := range freshTabs {
 				if want, ok := lastDump[tb]; ok && strings.TrimRight(fd[tb], "\n") != strings.TrimRight(want, "\n") {
 					o.viol(prop, "commit", "commit-wrote-partial-effects",
 						fmt.Sprintf("table %s as committed differs from what the session saw before COMMIT: %s", tb, firstDiff(want, fd[tb])))
@@ -555,8 +610,14 @@ func (c08) Eval(t *testing.T, c *Case, dec func(int) *Decider) *Outcome {
 				}
 			}
 			for _, tb := range meta.Final {
-				if a, b := res.Final[tb+".csv"].Data, ares.Final[tb+".csv"].Data; a != b {
-					o.viol(prop, "commit", "commit-differs-from-session-without-failed-statements", fmt.Sprintf("committed file %s.csv differs from the one written by the same session without its failed statements: %s", tb, firstDiff(b, a)))
+				name := tb // a created table: the file has the name given
+				for _, f := range append([]string{"t0.csv", "t1.csv"}, meta.Files...) {
+					if strings.TrimSuffix(f, filepath.Ext(f)) == tb {
+						name = f
+					}
+				}
+				if a, b := res.Final[name].Data, ares.Final[name].Data; a != b {
+					o.viol(prop, "commit", "commit-differs-from-session-without-failed-statements", fmt.Sprintf("committed file %s differs from the one written by the same session without its failed statements: %s", name, firstDiff(b, a)))
 				}
 			}
 			o.Stats.probe("compared-with-session-without-failed-statements")
